@@ -79,12 +79,25 @@ def _clap_parse(I, a, n, env):
     return A.Sym("args", n.get("ty"))
 
 
+def _reach(P, b, seen=None):
+    """(def path, call node) of the crate-local functions reachable from b."""
+    seen = seen if seen is not None else {}
+    for c, n in P.callees(b):
+        if c not in seen and c in P.bodies:
+            seen[c] = n
+            _reach(P, P.bodies[c], seen)
+    return list(seen.items())
+
+
 def explore_main(ctx):
     if hasattr(ctx, "_main"):
         return ctx._main
     P = ctx.bin
     b = P.fn("main")
-    inline = [x["def_path"] for x in P.user_bodies() if fshort(x) in ("convert_list_format",)]
+    # private helpers of main.rs are interpreted inline (convert_list_format, and whatever main is split into); the
+    # config-file loader stays an opaque source term ("the lines of the file")
+    inline = [x["def_path"] for x in P.user_bodies() if x is not b and fshort(x) != "load_removal_marker_target_names"
+              and x["def_path"] in {c_ for c_, _ in _reach(P, b)}]
     I = A.Interp(P, inline=inline, assume_ok=True, models={"clap::Parser::parse": _clap_parse})
     outs = I.explore(lambda J: J.call_fn_body(b, []))
     ctx._main = (b, outs)
@@ -181,6 +194,11 @@ def element_table(ctx):
     skip_fns = [x for x in P.user_bodies() if fshort(x).endswith("remover::is_skip")]
     inline = [x["def_path"] for x in skip_fns]
     info["skip_fn"] = skip_fns[0] if skip_fns else None
+    # private helpers of the remover module that the traversal calls (other than itself) are interpreted inline
+    src_file = (b["tree"].get("sp") or [None])[0]
+    for x in P.user_bodies():
+        if x is not b and x["def_path"] not in inline and (x["tree"].get("sp") or [0])[0] == src_file and x["def_path"] in {c_ for c_, _ in P.callees(b)}:
+            inline.append(x["def_path"])
 
     def bind_fn_params(env):
         for p in b["params"]:
@@ -305,7 +323,7 @@ def spec_element(row, create_term):
     usable = row["built"] and not row["empty"]
     ready = live and row["verdict"] and usable
     pending = live and (not row["verdict"]) and row["collect_pending"] and usable
-    rng = "(%s.some.0, %s.some.1)" % (create_term, create_term)
+    rng = "%s.some" % create_term     # the built (range, closed range) pair; Tuple.show contracts (x.0, x.1) to x
     r_children = "%s.0" % REC
     p_children = "%s.1" % REC
     if ready:
